@@ -12,9 +12,10 @@ CHECKS = {
     "C01": ("Bounded symbolic model checking of the real slicing / like / time-attribute code on signals whose length N <= 2^62, "
             "slice bounds (any integers or absent) and metadata are symbolic (T-arrays); one inductive step from an arbitrary valid "
             "signal plus an explicit two-step composition; fast_len against an uninterpreted prev_fast_len with the contract proved in C18; "
-            "contains() against the half-open interval at five concrete rates from mHz to GHz.",
-            "Exact real time (astropy Time two-double rounding outside the claim); step <= 4 quick / 8 thorough; FFT-based crops are "
-            "checked in C03/C05/C06/C12."),
+            "contains() against the half-open interval at five concrete rates from mHz to GHz (nothing before start_time, an empty signal "
+            "contains nothing); cropped integer and fractional time shifts (the C03 units) for their length / start_time clauses.",
+            "Exact real time (astropy Time two-double rounding outside the claim); step <= 4 quick / 8 thorough; the other FFT-based crops "
+            "are checked in C05/C06/C12."),
     "C03": ("Bounded symbolic model checking of the real time_shift: for each listed (N, sample shape, shift shape) every feasible path "
             "is explored and z3 shows that no sample values and no shift values within the bound violate the shift / zero-fill / crop / "
             "metadata spec (integer shifts: exact sample moves; real shifts: per-bin phase factor as uninterpreted cos/sin with argument equality).",
@@ -28,7 +29,8 @@ CHECKS = {
     "C10": ("Bounded symbolic model checking of the real concatenate together with the real slicing code: split at symbolic cut points "
             "(N <= 2^40 symbolic, 2..3 pieces quick / 4 thorough, every pattern of missing start times, both groupings) and re-joined equals the "
             "original; frequency splits at every channel cut for 2..4 (6) channels and all alignments; every listed perturbation (start time by "
-            ">= 1 sample, swapped pieces, sample rate / chan_bw beyond rtol, type mix, labels, gap/overlap/order in frequency) is refused on every path.",
+            ">= 1 sample, swapped pieces, sample rate / chan_bw beyond rtol, type mix, labels, gap/overlap/order/duplicated or swapped inner piece "
+            "in frequency, start times that disagree on a frequency join) is refused on every path; pieces without a start time on frequency joins.",
             "Exact real time with symbolic isclose tolerance eps < dt/4; concrete sample rates 3 Hz / 2.5 kHz / 400 MHz; float rounding of "
             "labels (bands touching 0 Hz, extreme center_freq/chan_bw ratios) outside the claim."),
     "C12": ("Bounded symbolic model checking of the real snippet: whole-sample requests on signals of symbolic length (t, n any integers; "
@@ -40,7 +42,8 @@ CHECKS = {
             "for inequalities).", "Shapes up to (2,2,2) quick, 4-d thorough; complex widths/rounding outside the claim."),
     "C18": ("Symbolic execution of the real next_fast_len/prev_fast_len bodies with symbolic N: every path is an interval of N with a constant "
             "result; z3 shows the result is the nearest 7-smooth number for all N of the path, against an independently generated table. "
-            "Exhaustive for 0 <= N < 2^13 quick, < 2^20 thorough plus symbolic windows of +-2^12 around every 97th 7-smooth number up to 2^62.",
+            "Exhaustive for 0 <= N < 2^17 quick, < 2^20 thorough plus symbolic windows around prime powers and every 97th 7-smooth number up to "
+            "2^62; fast_len(z) keeps exactly the first prev_fast_len(len(z)) samples (symbolic length, timestamps untouched).",
             "lru_cache bypassed via __wrapped__; N >= 2^20 outside the sampled windows is outside the claim."),
     "C19": ("Symbolic execution of the real real_to_complex on arrays of symbolic real samples with the exact DFT: output equals the analytic "
             "signal (standard one-sided spectrum weights) mixed by -fs/4 and decimated, (-1)^m Re(out[m]) = in[2m], shape/dtype/axis rules, "
@@ -58,14 +61,16 @@ CHECKS.update({
             "linearity), for N in {1,2,3,4} and several unit combinations; (b) every channel's chirp is that function called with "
             "(K*DM, N, dt, channel label, reference); (c) for every unit-modulus chirp the result is IDFT(DFT(z)*chirp) cropped by the "
             "ceilings of free band-edge delays of either sign/order, with start_time advanced by the front crop; DM/-DM exponents cancel; "
-            "the delay of any in-band frequency lies between the band-edge delays.",
+            "the delay of any in-band frequency lies between the band-edge delays. DM in pc/cm^3, pc/m^3, kpc/cm^3. Each transfer-function "
+            "witness is also replayed on the real code with an infinite reference frequency (concrete variant).",
             "Concrete sample spacing per unit; N in {2,4} (+{3,8} thorough) for the filtering units; complex64 accuracy of the chirp over many "
             "decades of DM is outside the claim (exact arithmetic); DM.sample_delay stubbed in (c), its law is C06."),
     "C06": ("Symbolic execution of the real time_delay/sample_delay on symbolic DM, frequencies and sample rate in mixed units: law, antisymmetry, "
             "additivity and sample_delay = delay*rate hold within 1e-12 relative (nonlinear real arithmetic); incoherent_dedispersion on signals "
             "of symbolic length with free monotone channel delays: every output sample comes from the input sample round(delay_i) later "
             "(round-half-even), sources in range, length, start_time, type/labels/trailing dims, and the delays are requested at the channel "
-            "labels / reference frequency / sample rate.", "nchan 1..3 (4 thorough); float rounding of delays near .5 outside the claim; "
+            "labels / reference frequency / sample rate. DM in pc/cm^3, pc/m^3, kpc/cm^3; each delay-law witness is also replayed with an "
+            "infinite second frequency (concrete variant).", "nchan 1..3 (4 thorough); float rounding of delays near .5 outside the claim; "
             "channel delays assumed monotone (proved for the real time_delay in the lemma units for bands above 0 Hz)."),
     "C14": ("Symbolic execution of 26 public operations on signals backed by writable NumPy object buffers (contiguous, strided view of a larger "
             "buffer, swapped axes): the complete input buffer, strides, metadata and every array/Quantity argument are snapshotted before and "
@@ -83,9 +88,12 @@ CHECKS.update({
             "shadow values held in an object-field Phase: for every operand kind (Phase, scalar, 0-d/1-d arrays, dimensionless Quantity, "
             "Angle/Quantity in cycles; both orders; real and imaginary phases and factors) the result is a Phase, its count integer-valued, "
             "|frac| <= 1/2, its value the exact expression on the operands (i*i = -1 bookkeeping), floor-division/remainder/divmod exact, and "
-            "sin/cos receive the fraction only. Every witness is also run on the real float code, whose outcome must satisfy the same oracle.",
+            "sin/cos receive the fraction only; // % divmod also with a Phase divisor and with an angle divided by a Phase. Every witness, and six "
+            "precision-corner inputs per unit, are also run on the real float code, whose outcome must agree with the exact result of the same "
+            "float operands within 2^-52 cycles (remainders: dividend = k*divisor + remainder to 2^-52) - concrete validation, not a proof.",
             "EXACT REAL semantics: decides dispatch/type/sign/normalisation, NOT the 2^-52 accuracy of the two-double chains at float64 (the "
-            "solvers available do not finish day_frac even at a 10-bit float format); precision loss is visible only through the result type."),
+            "solvers available do not finish day_frac even at a 10-bit float format); precision loss is visible only through the result type "
+            "and through the concrete replays."),
     "C16": ("Symbolic execution of the real constructors on a shape-only array whose dimensions are symbolic integers (ndim 0..5, 12 dtypes, six "
             "classes): construction succeeds exactly when the class contract holds, else ValueError; every metadata argument (valid/invalid "
             "units with symbolic magnitudes, non-scalars, invalid alignment / polarisation / meta / start_time values) by construction and by "
@@ -120,7 +128,8 @@ CHECKS.update({
     "C15": ("Comparisons: the real comparison branch runs on IEEE float64 shadow values (z3 FloatingPoint (11,53), RNE): for ALL pairs of "
             "normalised phases each of < <= > >= == != equals the comparison of the exact two-part values (decided by z3's qffp tactic in "
             "1-2 min per operator). argmin/argmax/min/max: decided at the (5,11) format for length-2 arrays; counterexamples are lifted to "
-            "float64 and replayed on the real code (open known findings F14: near-ties below double resolution are mis-ordered). "
+            "float64 and replayed on the real code (open known findings F14: near-ties below double resolution are mis-ordered). Comparison "
+            "dispatch in exact reals: Phase against Phase/angle/Quantity through operators and directly called ufuncs in both operand orders. "
             "_parse_string: CrossHair contract over a symbolic str of the decimal grammar (length <= 5 quick / 7 thorough) plus exact "
             "replays of exemplar spellings through from_string. Rendering: the real to_string/do_format/__format__ string surgery runs "
             "on symbolic decimal strings whose digits are solver variables constrained by the renderer contract (correct rounding of the "
